@@ -439,15 +439,17 @@ def r02_12(run, model):
                        "goast::Item that can carry `pkg.Name` - function and method bodies and the `type X = pkg.Name` alias that "
                        "gen_type_definition emits for every extern type")
     DCE = "crates/compiler/src/go/dce.rs"
-    f = model.fn("collect_packages_in_item", DCE)
+    f = model.fn_or_role("collect_packages_in_item", DCE, "prune_unused_imports", r"Item::(Fn|Method)\b")
     ms = list(S.find(f.body, "Match"))
     if not ms:
         raise AnalysisIncomplete("collect_packages_in_item: match on the item not found")
     seen = 0
+    # the walkers the item walker hands blocks, statements and expressions to
+    family = {g.name for g in model.scope_fns(f, depth=3)} - {f.name}
     for arm in ms[0]["arms"]:
         heads = [S.pat_head(a) for a in S.pat_alts(arm["pat"])]
         body = arm["body"]
-        does = any(c["k"] in ("Call", "MethodCall") and ((S.callee_name(c) or "").startswith("collect_packages_in_") or
+        does = any(c["k"] in ("Call", "MethodCall") and ((S.callee_name(c) or "").startswith("collect_packages_in_") or (S.callee_name(c) or "") in family or
                    (c["k"] == "MethodCall" and c["method"] == "insert")) for c in S.walk(body))
         for h in heads:
             v = h[1][-1] if h[0] == "variant" else "_"
